@@ -5,7 +5,7 @@ import re
 from vlib import *
 import oracles
 
-FILES = ['include/urcu/static/wfstack.h', 'include/urcu/static/lfstack.h', 'include/urcu/wfstack.h', 'include/urcu/lfstack.h', 'src/wfstack.c', 'src/lfstack.c']
+FILES = ['include/urcu/static/wfstack.h', 'include/urcu/static/lfstack.h', 'include/urcu/static/rculfstack.h', 'include/urcu/wfstack.h', 'include/urcu/lfstack.h', 'src/wfstack.c', 'src/lfstack.c']
 TRUSTED = ['Coq 8.16.1 kernel; no axioms (closed under the global context); no native_compute',
            'extraction: ExtrOcamlBasic only; ocaml/wfs_driver.ml, ocaml/lfs_driver.ml',
            'harness: verif_hooks.h, sched.c (simulated store buffers, mutex emulation); canonicalisation in tools/props/C11.py',
@@ -15,6 +15,7 @@ TRUSTED = ['Coq 8.16.1 kernel; no axioms (closed under the global context); no n
 WFS_MODEL_PROGS = ['P0P1/aa/P2', 'P0/P1/aaa', 'P0P1P2/aa', 'aP0a/P1P2/a']
 WFS_STATE_PROGS = ['P0s/P1', 'P0P1s/a', 'P0s/P1/e', 'P0P1ss/P2']      # the LAST answer of pop_with_state against pushes / pop_all landing right after the pop's exchange
 WFS_REUSE_PROGS = ['P0P1pa/AR', 'P0P1P2pa/AR', 'P0P1ppa/AR']      # a pop frozen between its loads and its head cmpxchg, against a mutex-protected pop_all whose owner pushes the top node again (ABA unless the pop mutex excludes it)
+LFSRCU_PROGS = ['P0P1/P2/pp', 'P0/P1p/pP2', 'P0P1/pr/pr/e', 'P0/P1/P2/ppp', 'P0P1P2/pr/pp', 'P0pr/P1p/P2e']      # legacy cds_lfs_rcu: pop under RCU, reuse after a grace period
 WFS_ORACLE_PROGS = ['P0P1/ps/P2e', 'P0P1P2/pp/sa', 'P0P1/nn/P2p', 'P0/P1/pe/se', 'P0P1/a/p/P2']
 LFS_PROGS = ['P0P1p/are', 'P0P1P2/pr/a', 'P0P1/pr/pr/e', 'P0P1P2/ar/pp', 'P0P1/p/a/P2r', 'P0P1/par/pe']
 
@@ -123,6 +124,14 @@ def run(ctx):
         corr_schedules(ctx, 'Lfs.v vs static/lfstack.h', limpl, lmodel, gen(ctx, LFS_PROGS, n, False, 'C11'), canon_c, oracle=oracle, nontrivial=contended,
                        tail='012345' * 150, scenario='scen_lfs (push, pop_blocking, pop_all_blocking, empty, node reuse)')
     # the same scenarios with plain stores (node->next = head in push, node initialisation) as scheduling points and buffered stores: oracle only
+    rimpl = build_scenario(ctx, 'scen_lfsrcu', 'scen_lfsrcu.c')
+    if rimpl:
+        rc = gen(ctx, LFSRCU_PROGS, n, False, 'C11')
+        # a push frozen before each of its steps - in particular before its first cmpxchg - while another push / a pop completes
+        for prog in ('P0P1/P2/pp', 'P0P1/P2/P3p', 'P0/P1/pe'):
+            for k in range(0, 14):
+                rc.append((prog, '>0' * prog.split('/')[0].count('P') + '1' * k + '>2>2' + '1' * 30 + '012' * 40))
+        corr_schedules(ctx, 'legacy rculfstack LIFO', rimpl, None, rc, canon_c, oracle=oracle, nontrivial=contended, tail='012345' * 150, scenario='scen_lfsrcu (cds_lfs_*_rcu, abstract RCU) - oracle only')
     for nm, src, progs, tso, tl in (('scen_wfs_plain', 'scen_wfs.c', WFS_MODEL_PROGS + WFS_ORACLE_PROGS, True, tail), ('scen_lfs_plain', 'scen_lfs.c', LFS_PROGS, False, '012345' * 150)):
         pimpl = build_scenario(ctx, nm, src, plain=True)
         if pimpl: corr_schedules(ctx, nm + ' LIFO with instrumented plain stores', pimpl, None, gen(ctx, progs, n // 2, tso, 'C11'), canon_c, oracle=oracle, nontrivial=contended, tail=tl, scenario=nm + ' (oracle only)')
